@@ -79,7 +79,8 @@ class Gen:
             self.features.add("call")
             if f.name.startswith("rec"):
                 return "%s(%d)" % (f.name, r.randrange(0, 6))
-            return "%s(%s)" % (f.name, ", ".join(self.expr(env, t, d) for t, _ in f.params))
+            # an int argument for a long parameter is widened at the call
+            return "%s(%s)" % (f.name, ", ".join(self.expr(env, "int" if (t == "long" and r.random() < 0.35) else t, d) for t, _ in f.params))
         arrs = [n for n, t in env.items() if t == ty + "[]"]
         if arrs and k < 0.22:
             self.features.add("index")
@@ -198,6 +199,12 @@ class Gen:
         if k < 0.30 or not env:
             ty = r.choice(SCALARS)
             name = self.fresh()
+            # "int values can widen to long in assignments and calls": a long variable initialised from an int expression
+            # (large ones included) must behave as a long afterwards
+            if ty == "long" and r.random() < 0.35:
+                init = r.choice(["2000000000", "2147483647", "(0 - 2000000000)", self.expr(env, "int", 2)])
+                env[name] = ty
+                return "long %s = %s; echo(%s + %s); echo(%s * 3);" % (name, init, name, name, name)
             init = self.expr(env, ty, 2)
             if r.random() < 0.1:
                 name = "f_" + name          # finals are readable but never chosen as assignment targets
@@ -220,6 +227,8 @@ class Gen:
             cands = [(n, t) for n, t in env.items() if t in SCALARS and not n.startswith(("f_", "i", "j"))]
             if cands:
                 n, t = r.choice(cands)
+                if t == "long" and r.random() < 0.35:
+                    return "%s = %s; echo(%s + %s);" % (n, r.choice(["2000000000", "2147483647", self.expr(env, "int", 2)]), n, n)
                 return "%s = %s;" % (n, self.expr(env, t, 2))
         if k < 0.56:
             arrs = [(n, t) for n, t in env.items() if t.endswith("[]")]
